@@ -37,7 +37,7 @@ class HealthCheckServer:
             self._server = await loop.create_server(
                 lambda: _HttpServerProtocol(
                     endpoint_name=self.server_settings.endpoint_name,
-                    status=self.health_status,
+                    server=self,
                 ),
                 host=self.server_settings.address,
                 port=self.server_settings.port,
@@ -63,10 +63,10 @@ class HealthCheckServer:
 
 
 class _HttpServerProtocol(asyncio.Protocol):
-    def __init__(self, endpoint_name: str, status: HealthCheckStatus) -> None:
+    def __init__(self, endpoint_name: str, server: HealthCheckServer) -> None:
         super().__init__()
         self.endpoint_name = endpoint_name
-        self.status = status
+        self.server = server
 
     def connection_made(self, transport: asyncio.BaseTransport) -> None:
         self.transport: asyncio.WriteTransport = transport  # type: ignore[assignment]
@@ -85,7 +85,9 @@ class _HttpServerProtocol(asyncio.Protocol):
 
     def handle_request(self, method: str, path: str) -> str:
         if method == "GET" and path == self.endpoint_name:
-            content = f"{self.status.value} {self.status.name}"
+            # the status at the time of the request, not at the time the connection was accepted
+            status = self.server.health_status
+            content = f"{status.value} {status.name}"
         else:
             content = "404 Not Found"
         return (
